@@ -350,7 +350,87 @@ def h4_boxes(timeout=60, **kw):
 
 
 # --------------------------------------------------------------------------------------- replay
+# ------------------------------------------------------------------------------------------ H5 deep and wide page trees (real documents, concrete)
+DEEP_DEPTHS = [1, 2, 10, 23, 24, 25, 26, 40, 120]
+DEEP_WIDE = [1, 3]
+
+
+def deep_doc(depth, wide):
+    """a chain of `depth` nested /Pages nodes; every node holds `wide` leaf pages before and one after its child node; MediaBox and Rotate are set on the root and on the middle node only"""
+    from lib.pdfgen import Ref, Stream, build
+    objs = {1: {"Type": "Catalog", "Pages": Ref(10)}, 3: {"Type": "Font", "Subtype": "Type1", "BaseFont": "Helvetica"}}
+    order, nid, expected = [], [5000], []
+
+    def leaf(parent, label, box, rot):
+        n = nid[0]; nid[0] += 2
+        objs[n] = {"Type": "Page", "Parent": Ref(parent), "Contents": Ref(n + 1), "Resources": {"Font": {"F1": Ref(3)}}}
+        objs[n + 1] = Stream({}, b"BT /F1 10 Tf 10 50 Td (" + label.encode() + b") Tj ET")
+        expected.append((label, box, rot))
+        return Ref(n)
+    box, rot = [0, 0, 300, 400], 90
+    tails = []
+    for d in range(depth):
+        node = 10 + d
+        if d == depth // 2 and d > 0:
+            box, rot = [0, 0, 200, 100], 180
+        kids = [leaf(node, "L%da%d" % (d, i), box, rot) for i in range(wide)]
+        objs[node] = {"Type": "Pages", "Kids": kids, "Count": 0}
+        if d == 0:
+            objs[node].update({"MediaBox": [0, 0, 300, 400], "Rotate": 90})
+        elif d == depth // 2:
+            objs[node].update({"MediaBox": [0, 0, 200, 100], "Rotate": 180})
+        if d > 0:
+            objs[node]["Parent"] = Ref(node - 1)
+            objs[node - 1]["Kids"].append(Ref(node))
+        tails.append((node, box, rot))
+    for node, b, r in reversed(tails):                      # the page after the child node, innermost first = document order
+        objs[node]["Kids"].append(leaf(node, "L%dz" % (node - 10), b, r))
+    return build(objs), expected
+
+
+def _deep_check(sel):
+    import io
+    from pdfminer.pdfpage import PDFPage
+    from pdfminer.high_level import extract_text
+    depth, wide = DEEP_DEPTHS[sel["depth"]], DEEP_WIDE[sel["wide"]]
+    data, expected = deep_doc(depth, wide)
+    desc = "page tree of %d nested /Pages nodes with %d+1 pages each" % (depth, wide)
+    try:
+        pages = list(PDFPage.get_pages(io.BytesIO(data)))
+        got = [(tuple(p.mediabox), p.rotate) for p in pages]
+        if got != [(tuple(b), r) for _, b, r in expected]:
+            k = next((i for i in range(min(len(got), len(expected))) if got[i] != (tuple(expected[i][1]), expected[i][2])), min(len(got), len(expected)))
+            return "%s: %d pages found, %d in the tree; first difference at page %d (%r, the nearest ancestor gives %r)" % (desc, len(got), len(expected), k, got[k] if k < len(got) else None, expected[k][1:] if k < len(expected) else None)
+        txt = extract_text(io.BytesIO(data)).split("\x0c")
+        labels = ["".join(t.split()) for t in txt if t.strip()]          # rotated pages lay the glyphs out one per line
+        if labels != [l for l, _, _ in expected]:
+            return "%s: the pages come out as %r..., document order is %r..." % (desc, labels[:6], [l for l, _, _ in expected][:6])
+        last = len(expected) - 1
+        sel_txt = ["".join(t.split()) for t in extract_text(io.BytesIO(data), page_numbers=[0, last]).split("\x0c") if t.strip()]
+        if sel_txt != [expected[0][0], expected[last][0]]:
+            return "%s: page_numbers=[0, %d] selects %r, the first and last pages are %r" % (desc, last, sel_txt, [expected[0][0], expected[last][0]])
+    except Exception as e:
+        return "%s: raised %s: %s" % (desc, type(e).__name__, str(e)[:200])
+    return None
+
+
+def h5_deep(timeout=200, part=None, **kw):
+    import pdfminer.pdfpage as pp
+
+    def fn(ex):
+        sel = {"depth": ex.choice(len(DEEP_DEPTHS), "depth"), "wide": ex.choice(len(DEEP_WIDE), "wide")}
+        r = _deep_check(sel)
+        ex.require(r is None, r or "", deep=sel)
+
+    def conc(m, info):
+        return {"deep": info["deep"]}
+    return core.run_symx("H5_deep", fn, [pp.PDFPage.create_pages, pp.PDFPage.get_pages], {"depths": DEEP_DEPTHS, "pages per node": [w + 1 for w in DEEP_WIDE], "inheritance": "MediaBox / Rotate on the root and the middle node"},
+                         timeout, concretize=conc, part=part)
+
+
 def replay(harness, inp):
+    if "deep" in inp:
+        return _deep_check(inp["deep"])
     import pdfminer.pdfpage as pp
     if harness == "H1_select":
         class _Doc:
@@ -455,7 +535,7 @@ def replay(harness, inp):
 
 
 def jobs(tier):
-    J = [Job("H3_rotate", "h3_rotate", {}, 60), Job("H4_ctm", "h4_ctm", {}, 150), Job("H4_boxes", "h4_boxes", {}, 60)]
+    J = [Job("H5_deep", "h5_deep", {}, 200), Job("H3_rotate", "h3_rotate", {}, 60), Job("H4_ctm", "h4_ctm", {}, 150), Job("H4_boxes", "h4_boxes", {}, 60)]
     if tier == "quick":
         for k in range(3):
             J.append(Job("H1_select:n6:%d" % k, "h1_select", {"npages": 6, "part": [k, 3, 6]}, 150, "H1_select"))
